@@ -315,8 +315,19 @@ def genuineHello (kind : String) : Nat × List Nat × List Nat :=
   else (0x0303, [0xcca8, 0xcca9, 0xc02f, 0xc030, 0xc02b, 0xc02c, 0xc009, 0xc014, 0xc00a, 0x009c, 0x009d, 0x002f, 0x0035,
                  0xc012, 0x000a], [0])
 
-def chmodOp (args : List String) : String :=
-  match args with
+def chmodOp (args0 : List String) : String :=
+  -- optional 4th argument lim:<min>:<max>: the server's Config.MinVersion / MaxVersion (0000 = unset)
+  let lim? : Option (Option (Nat × Nat)) := match args0 with
+    | [_, _, _, l] => (match l.splitOn ":" with
+        | ["lim", a, b] => (match hexList? a 4, hexList? b 4 with
+            | some [x], some [y] => some (some (x, y)) | _, _ => none)
+        | _ => none)
+    | _ => some none
+  match lim? with
+  | none => "bad-op"
+  | some lim =>
+  let (lo, hi) := match lim with | some (x, y) => (cfgMin x, cfgMax y) | none => (cfgMin 0, cfgMax 0)
+  match args0.take 3 with
   | [mode, kind, field] =>
     let md : Option Mode := if mode = "gm" then some .gmOnly else if mode = "auto" then some .auto
       else if mode = "tls" then some .tlsOnly else none
@@ -333,13 +344,15 @@ def chmodOp (args : List String) : String :=
       | none => "bad-op"
       | some (v, s, cs) =>
         let changed := (v, s, cs) ≠ (v0, s0, c0)
-        let ans := helloAnswer md (kind = "tls") v s cs
+        let ans := if lim.isSome then helloAnswerLim lo hi md (kind = "tls") v s cs else helloAnswer md (kind = "tls") v s cs
         let shown := match ans with
           | .reject => "reject" | .failure => "nosuite" | .fallback => "alert:86"
           | .serverHello w su => s!"sh:{hex4 w}:{hex4 su}"
         -- an unaltered hello of the kind the server speaks completes; an altered one never does: either the
         -- server refuses it, or the two transcripts differ and the Finished check fails
-        let completes := !changed && (match ans with | .serverHello _ _ => true | _ => false)
+        let completes := !changed && (match ans with
+          | .serverHello w _ => if lim.isSome then clientVersionOk (kind = "gm") w else true
+          | _ => false)
         (if completes then "done" else "error") ++ " " ++ shown
     | _, _ => "bad-op"
   | _ => "bad-op"
@@ -388,5 +401,11 @@ def handshakeDispatch (toks : List String) : Option String :=
   -- one and with no other (intrinsic oracle in the harness: ORACLE-FAIL:completed-on-misbehaviour)
   | ["evilsrv", v, _, _] => some (if v = "honest" then "done" else "error")
   | ["evilgm", v, _, _] => some (if v = "honest" then "done" else "error")
+  -- a scripted GM client holding its own secrets (VerifEvilClient): the server completes with the variants that
+  -- deviate in nothing the server can see before its handshake is over, and with no other
+  | ["evilgmc", v, o, _] =>
+    let npn := (o.splitOn "+").contains "npn"
+    let honest := v = "honest" || v = "npn-honest" || v = "fin-twice" || ((v = "npn-omit" || v = "npn-twice") && !npn)
+    some (if honest then "done" else "error")
   | _ => none
 end Driver
